@@ -22,27 +22,27 @@ import (
 )
 
 type nextPay struct {
-	pos, start, shift, length *Lin // lexer.pos, .start, .posShift, len(lexer.input)
-	keptFrom                  *Lin // input = input[keptFrom:] + chunk (nil: not rebuilt)
-	keptToEnd, appended       bool
-	received, closed          bool   // outcome of the receive on this path
-	doneSet                   string // "", "true", "other": what inputsDone was assigned
-	doneKnown                 string // decision on inputsDone: "", "true", "false"
-	fullKnown                 string // decision on FullRune(input[pos:]): "", "true", "false"
-	fullSlice                 string // shape of the argument of FullRune…
-	lpChunk                   bool   // lpUpd got the received chunk
-	lpOff                     *Lin
-	lpCalls, recvs            int
-	decoded                   bool
-	decodeSlice               string
+	pos, start, shift, length   *Lin // lexer.pos, .start, .posShift, len(lexer.input)
+	keptFrom                    *Lin // input = input[keptFrom:] + chunk (nil: not rebuilt)
+	keptToEnd, appended         bool
+	received, closed            bool   // outcome of the receive on this path
+	doneSet                     string // "", "true", "other": what inputsDone was assigned
+	doneKnown                   string // decision on inputsDone: "", "true", "false"
+	fullKnown                   string // decision on FullRune(input[pos:]): "", "true", "false"
+	fullSlice                   string // shape of the argument of FullRune…
+	lpChunk                     bool   // lpUpd got the received chunk
+	lpOff                       *Lin
+	lpCalls, recvs              int
+	decoded                     bool
+	decodeSlice                 string
 	width, posAtDec, startAtDec *Lin   // lexer.width; pos and start when the rune was decoded
-	zeroW                     string // decision on "the decoded width is 0": "", "true", "false"
-	ret                       string // what the path returns: "rune" (the decoded rune), "eof", or a description
-	decFull, decDone          bool   // at the decode: a full rune was known to be buffered / the input was known to have ended
-	leftLoop                  string // "", "cond", "break", "return"
-	inLoop                    bool
-	problems                  []string
-	events                    []string
+	zeroW                       string // decision on "the decoded width is 0": "", "true", "false"
+	ret                         string // what the path returns: "rune" (the decoded rune), "eof", or a description
+	decFull, decDone            bool   // at the decode: a full rune was known to be buffered / the input was known to have ended
+	leftLoop                    string // "", "cond", "break", "return"
+	inLoop                      bool
+	problems                    []string
+	events                      []string
 }
 
 func (p *nextPay) Clone() Payload {
